@@ -9,13 +9,15 @@ NN = {"t": "none"}
 def S(s): return {"t": "str", "v": [ord(c) for c in s]}
 def LI(xs): return {"t": "list", "v": list(xs)}
 def TU(xs): return {"t": "tuple", "v": list(xs)}
+def IP(s): return {"t": "ip", "v": [ord(c) for c in s]}
+def PA(s): return {"t": "path", "v": [ord(c) for c in s]}
 
 
 def val(v):
     t = v["t"]
     if t in ("int", "bool"): return v["v"]
     if t == "none": return None
-    if t == "str": return "".join(map(chr, v["v"]))
+    if t in ("str", "ip", "path"): return "".join(map(chr, v["v"]))
     if t == "list": return [val(x) for x in v["v"]]
     if t == "tuple": return tuple(val(x) for x in v["v"])
     raise ValueError(t)
@@ -38,6 +40,8 @@ def GEN(q, it, elt, cond=None):
     return {"k": "gen", "q": q, "it": it, "elt": elt, "hasif": cond is not None, "cond": cond if cond is not None else C(B(True))}
 def HELPER(f, fields, strs): return {"k": "helper", "f": f, "fields": list(fields), "strs": [[ord(c) for c in s] for s in strs]}
 def HASFIELD(f): return {"k": "hasfield", "f": f}
+def TYPED(ty, op, b): return {"k": "typed", "form": "cmp", "ty": ty, "op": op, "b": b}
+def INTYPED(ty, b): return {"k": "typed", "form": "in", "ty": ty, "op": "In", "b": b}
 
 OPS = {"Eq": "==", "NotEq": "!=", "Lt": "<", "LtE": "<=", "Gt": ">", "GtE": ">=", "In": "in", "NotIn": "not in", "Add": "+", "Mult": "*", "Mod": "%",
        "Div": "/", "BitAnd": "&", "BitOr": "|", "And": "and", "Or": "or", "Sub": "-", "FloorDiv": "//"}
@@ -68,6 +72,9 @@ def src(e):
             return f"field_regex(r, {e['fields']!r}, {strs[0]!r})"
         return f"{e['f']}(r, {e['fields']!r}, {strs!r})"
     if k == "hasfield": return f"has_field(r, {e['f']!r})"
+    if k == "typed":
+        if e["form"] == "cmp": return f"(Type.{e['ty']} {OPS[e['op']]} {src(e['b'])})"
+        return f"({src(e['b'])} in Type.{e['ty']})"
     raise ValueError(k)
 
 
@@ -93,12 +100,18 @@ def walk(e):
 
 
 # ---------- records ----------
-FIELDS = [("varint", "n"), ("string", "s"), ("string[]", "l"), ("string", "z"), ("boolean", "t")]
+FIELDS = [("varint", "n"), ("string", "s"), ("string[]", "l"), ("string", "z"), ("boolean", "t"), ("net.ipaddress", "ip"), ("path", "p"), ("string", "w")]
 RECS = [
-    {"n": I(1), "s": S("Ab"), "l": LI([S("a"), S("b")]), "z": NN, "t": B(True)},
-    {"n": I(0), "s": S(""), "l": LI([]), "z": NN, "t": B(False)},
-    {"n": I(100), "s": S("a"), "l": LI([S("Ab")]), "z": NN, "t": B(True)},
+    {"n": I(1), "s": S("Ab"), "l": LI([S("a"), S("b")]), "z": NN, "t": B(True), "ip": IP("10.0.0.1"), "p": PA("/a/B"), "w": S("a")},
+    {"n": I(0), "s": S(""), "l": LI([]), "z": NN, "t": B(False), "ip": IP("10.0.0.2"), "p": PA("/a"), "w": S("zz")},
+    {"n": I(100), "s": S("a"), "l": LI([S("Ab")]), "z": NN, "t": B(True), "ip": NN, "p": NN, "w": S("b")},
 ]
+
+
+def envs():
+    """the records as environments for spec/Selector.tla (with the field-type table the typed matchers need)"""
+    meta = {"$types": {"t": "meta", "v": {n: t for t, n in FIELDS}}, "$order": {"t": "meta", "v": [n for t, n in FIELDS]}}
+    return [dict(r, **meta) for r in RECS]
 MISSING = ["m", "m2"]   # field names no record has
 
 
@@ -154,7 +167,7 @@ def make_case(e, frecs, plain):
 
     s = src(e)
     miss = has_missing(e)
-    if miss or any(x["k"] in ("helper", "hasfield") for x in walk(e)):
+    if miss or any(x["k"] in ("helper", "hasfield", "typed") or (x["k"] == "field" and x["f"] in ("ip", "p")) for x in walk(e)):
         py = [{"k": "skip", "v": False} for _ in plain]   # not cross-validated by eval (see _Missing)
     else:
         code = compile(s, "<e>", "eval")
@@ -231,7 +244,12 @@ def c07_exprs(rnd, budget):
     bools = [BOOL(o, x, y) for o in ("And", "Or") for x in simple for y in right]
     nots = [NOT(x) for x in atoms + [c for c in cmps if c["b"] in fields]]
     helpers = [HELPER(f, fs, ss) for f in ("field_equals", "field_contains", "field_regex") for fs in (["s"], ["s", "z"], ["n"]) for ss in (["a"], ["AB"], ["b", "a"])]
-    groups = {"cmp": cmps, "bin": [CMP("Eq", b, C(I(2))) for b in bins] + bins, "call": calls, "chain": chains, "gen": gens, "l2cmp": l2, "neg": negs, "bool": bools, "not": nots, "helper": helpers}
+    typed = [TYPED(ty, o, b) for ty in ("string", "varint", "boolean") for o in ("Eq", "NotEq", "Lt", "GtE") for b in (C(S("a")), C(S("zz")), C(I(1)), C(I(50)), C(B(True)))] + \
+            [INTYPED("string", b) for b in (C(S("a")), C(S("b")), C(S("z")), C(S("")))]
+    iph = [CMP(o, F(f), b) for f in ("ip", "p") for o in ("Eq", "NotEq") for b in (C(S("10.0.0.1")), C(S("/a")), C(S("/a/B")), C(NN), C(I(1)))] + \
+          [CMP(o, b, F(f)) for f in ("ip", "p") for o in ("Eq", "NotEq") for b in (C(S("10.0.0.1")), C(S("/a")))] + \
+          [HELPER("field_equals", fs, ss) for fs in (["ip"], ["p"], ["ip", "s"], ["p", "m"]) for ss in (["10.0.0.1"], ["/a/b"], ["/A"], ["/a", "10.0.0.2"])]
+    groups = {"typed": typed, "ip_path": iph, "cmp": cmps, "bin": [CMP("Eq", b, C(I(2))) for b in bins] + bins, "call": calls, "chain": chains, "gen": gens, "l2cmp": l2, "neg": negs, "bool": bools, "not": nots, "helper": helpers}
     total = sum(len(g) for g in groups.values())
     out = []
     for name, g in groups.items():
